@@ -204,8 +204,13 @@ func (sc *SlotChain) Entry(ctx *EntryContext) *TokenResult {
 	}
 	if ruleCheckRet == nil {
 		ctx.RuleCheckResult.ResetToPass()
-	} else {
-		ctx.RuleCheckResult = ruleCheckRet
+	} else if ruleCheckRet != ctx.RuleCheckResult {
+		// The result object stays the slot's own: the context is pooled, and the result it
+		// holds is reset when the entry exits and rewritten in place by later entries.
+		if ctx.RuleCheckResult == nil {
+			ctx.RuleCheckResult = NewTokenResultPass()
+		}
+		*ctx.RuleCheckResult = *ruleCheckRet
 	}
 
 	// execute statistic slot
